@@ -303,7 +303,7 @@ func coveringDesigns() []DCase {
 			for _, mn := range []string{"func", "len", "package", "string", "error", "type", "fmt", "var"} {
 				s.Methods = append(s.Methods, &dg.Method{Name: mn, Payload: pa(dg.A(dg.Obj(dg.F("a", dg.Prim("String"))))), Result: pa(dg.A(dg.Ref("range"))),
 					Errors: []dg.ErrorDef{{Name: "select"}, {Name: "error"}},
-					HTTP: &dg.HTTPMap{Routes: rt("POST", "/"+sn+"/"+mn), Errors: []dg.ErrResponse{{Name: "select", R: dg.Response{Status: 404}}, {Name: "error", R: dg.Response{Status: 400}}}}})
+					HTTP:   &dg.HTTPMap{Routes: rt("POST", "/"+sn+"/"+mn), Errors: []dg.ErrResponse{{Name: "select", R: dg.Response{Status: 404}}, {Name: "error", R: dg.Response{Status: 400}}}}})
 			}
 			d.Services = append(d.Services, s)
 		}
@@ -371,7 +371,7 @@ func coveringDesigns() []DCase {
 	// 15. security kinds, requirement combinations, scopes, levels
 	{
 		d := &dg.Design{Name: "cov_security",
-			Schemes: []dg.Scheme{{Kind: "basic", Name: "basic_sch"}, {Kind: "apikey", Name: "key_sch"}, {Kind: "jwt", Name: "jwt_sch", Scopes: []string{"api:read", "api:write"}}, {Kind: "oauth2", Name: "oauth_sch", Scopes: []string{"api:read", "api:write"}}},
+			Schemes:  []dg.Scheme{{Kind: "basic", Name: "basic_sch"}, {Kind: "apikey", Name: "key_sch"}, {Kind: "jwt", Name: "jwt_sch", Scopes: []string{"api:read", "api:write"}}, {Kind: "oauth2", Name: "oauth_sch", Scopes: []string{"api:read", "api:write"}}},
 			Security: []dg.Requirement{{Schemes: []string{"key_sch"}}}}
 		sec := func(fn, scheme string, req bool, n string) *dg.Field {
 			return &dg.Field{Name: n, A: dg.Attr{T: dg.Prim("String"), Sec: &dg.SecAttrKind{Fn: fn, Scheme: scheme}}, Required: req}
